@@ -5,7 +5,8 @@ import numpy as np
 from vlib import caseio, gen
 
 ID = "C05"
-COQ_TARGETS = ["C05_Extract.vo"]
+COQ_TARGETS = ["C05_Extract.vo", "UT_Transport.vo", "C03_Transport.vo", "C04_Transport.vo", "C05_Transport.vo"]
+EXTRA_PROPERTIES = ["Transport"]   # Properties_Transport.v: the unscented steps executed at the list instance represent the MathComp instance of the theorems
 EXTRACTED = "C05_model"
 DRIVER = "drv_C05.ml"
 HARNESS = "h_C05.cpp"
@@ -15,7 +16,8 @@ AXIOMS_ALLOWED = []          # MathComp only: closed under the global context
 REQUIRED_THEOREMS = ["C05_block_sum", "C05_serial_cov_identity", "C05_push_through", "C05_sigma_cov", "C05_linear_roundtrip", "C05_cov", "C05_mean",
                      "C05_likelihood", "C05_Cinv_invertible", "C05_sukf_log_argument_positive", "C05_ukf_log_argument_positive",
                      "C05_Pyy_invertible", "C05_step_equals_ukf",
-                     "C05_reduced_eq_full", "C05_reduced_eq_full_likelihood", "C05_size_mismatch_identity"]
+                     "C05_reduced_eq_full", "C05_reduced_eq_full_likelihood", "C05_size_mismatch_identity",
+                     "Transport_oracle_counterpart_exists", "Transport_C05_weights", "Transport_C05_sukf_correct", "Transport_C05_sukf_likelihood", "Transport_C05_ukf_correct", "Transport_C05_ukf_likelihood", "Transport_C05_sukf_step_spd"]
 RULE = ("cases drawn from one seeded stream: state size n in 1..5, sub-measurement size s in 1..3, k in 1..4 blocks "
         "(meas = k*s), 15% of the cases with a measurement size that is NOT a multiple of s, components 1..3, "
         "h from a 3-member family (affine; affine + g sin(Gx); affine + g (Gx)(G2x)) with random coefficients, "
@@ -39,7 +41,7 @@ RULE = ("cases drawn from one seeded stream: state size n in 1..5, sub-measureme
 TRUSTED_BASE = ["Coq 8.16.1 kernel (coqc); no axioms (Print Assumptions: closed under the global context)",
                 "MathComp 1.15 matrix theory",
                 "extraction (ExtrOcamlBasic only) and ocaml/float_ops.ml, ocaml/drv_C05.ml, ocaml/caseio.ml",
-                "ListOps list instance of MatOps (structural operations and Gauss-Jordan inverse/determinant, unproved)",
+                "ListOps list instance of MatOps: proved to compute the MathComp operations on well-formed inputs over any realFieldType, incl. the Gauss-Jordan inverse/determinant on invertible inputs (ListOpsCorrect.v, ListGauss.v); the unscented steps executed at the list instance are proved to represent the MathComp instance the theorems are about (UT_Transport.v, C03_/C04_/C05_Transport.v; the theorems of Properties_Transport.v are obligations of this check), under per-call premises: the list-level and the matrix-level square-root / eigenvector oracles correspond on the matrices actually passed, the model functions map corresponding columns to corresponding columns, and the inverted matrices (the noise blocks, I + Y^T R^-1 Y, Pyy, and everything the UVR density inverts) are invertible at the MathComp instance (derived for k blocks of size s > 0 with SPD noise blocks: Transport_C05_sukf_step_spd); what remains between executed model and theorem model is IEEE rounding and the oracle correspondence",
                 "cpp/h_C05.cpp harness (its AdditiveMeasurementModel computing the h family), tolerances per component: covariance 5e-12 * K_i * max|P_i|, "
                 "mean 5e-11 * K_i * |mean shift|, K_i = cond(I + Y_i^T R^-1 Y_i) + max_j cond(R_j) for the serial form, cond(Pyy_i) for the gain form, their sum for SUKF vs UKF "
                 "(both routes cancel from the prior's magnitude; measured worst 3.4e-15 / 1.8e-13 of these scales over 14000 components), comparisons whose covariance tolerance exceeds 1% of the largest "
